@@ -677,6 +677,22 @@ def gen_cases(r, n, tier):
             c = Case(seed=60 + mi, force=[f], ops=["bm", "C"] + mix + tails["timeout"])
             c.kind = "blockmode/force"
             cases.append(c)
+    # 4c. client settings that make the LIBRARY send Confirmables of its own on the session:
+    # extended tokens (a probe precedes the first request, the server answers it with RST) and
+    # keep-alive pings; with matching credentials everything submitted must still be delivered
+    for pre in (["xt", "C"], ["xt", "C", "d", "d"], ["xt", "C", "a"], ["xt", "ns2", "C"]):
+        for body in (["qc1", "qc2", "a", "qc3", "a"], ["qc1", "qn2", "qc3", "a"], ["qn1", "qc2", "a", "qn3", "a"]):
+            for kw in ({}, dict(skey=b"other-key")):
+                tl = [] if not kw else "t1000 a t1000 a t2000 a t2000 a t1000 a t1000 a".split()
+                c = Case(seed=70, fd0=len(pre) % 2, ops=pre + body + tl, **kw)
+                c.kind = "libprobe/exttoken"
+                cases.append(c)
+    for ka in (1, 2):
+        for body in (["a", "t%d" % (ka * 1000 + 100), "a", "qc1", "a", "qc2", "a"],
+                     ["qc1", "a", "t%d" % (ka * 1000 + 100), "a", "qc2", "qn3", "a", "t%d" % (ka * 1000 + 100), "a", "qc4", "a"]):
+            c = Case(seed=71, ops=["ka%d" % ka, "C"] + body)
+            c.kind = "libprobe/keepalive"
+            cases.append(c)
     # 5. forced GnuTLS return codes (fault sequences) at every call position of a handshake
     codes = [0, -28, -52, -32, -12, -19, -15, -16, -49, -112, -24, -43, -21, -87, -10, -328, -110, -319,
              -54, -53, -1, -8, -9, -50, -59, -64, -78, -292, -400]
